@@ -152,7 +152,7 @@ def run_sim(chk, wd, scns, trace_module, *, label="sim", shards=12, sig_of=None,
     elif os.environ.get("VERIF_SCHEDS") is not None:
         pols = [p for p in os.environ["VERIF_SCHEDS"].split(",") if p]
     elif getattr(chk, "tier", "quick") == "quick":
-        pols = ["hi"] if len(scns) <= 3000 else []
+        pols = ["hi"] if len(scns) <= 6000 else []
     else:
         pols = ["hi", f"rand:{vlib.seed()}", f"rand:{vlib.seed() + 1}"] if len(scns) <= 50000 else ["hi"]
     if runner == "sim" and hasattr(chk, "notes"):
